@@ -96,6 +96,10 @@ func exoticVal(rng *Rng) string {
 		return strings.Repeat("ab", rng.Range(100, 160)) // a few hundred bytes
 	case 2:
 		return strings.Repeat("z", rng.Pick2(255, 256)+rng.Intn(2))
+	case 3:
+		if rng.Chance(1, 3) {
+			return strings.Repeat("L", rng.Pick2(2100, 4200)) // longer than any "reasonable" limit somebody might build in
+		}
 	}
 	return rng.Pick(oddVals)
 }
@@ -259,7 +263,15 @@ func (g *Gen) GenShape(cfg ShapeCfg) {
 			prog = append(prog, RegOp{Op: "notallowed", MW: g.newIDs('n', rng.Range(1, 2), &cfg)})
 		}
 		if sc.Options.Fallback {
-			prog = append(prog, RegOp{Op: "route", Via: "any", Path: "/*", H: g.newID('h', &cfg)})
+			if rng.Chance(1, 2) {
+				prog = append(prog, RegOp{Op: "route", Via: "any", Path: "/*", H: g.newID('h', &cfg)})
+			} else { // fallback routes for some methods only, each with its own handler
+				for _, m := range []string{"GET", "HEAD", "POST"} {
+					if rng.Chance(2, 3) {
+						prog = append(prog, RegOp{Op: "route", Via: "verb", Methods: []string{m}, Path: "/*", H: g.newID('h', &cfg)})
+					}
+				}
+			}
 		}
 	}
 	sc.Program = prog
@@ -390,6 +402,14 @@ func (g *Gen) GenRequest(prev []Req) Req {
 		m = "HEAD"
 	case 1:
 		m = rng.Pick(allMethods)
+	}
+	if rng.Chance(1, 20) {
+		// the method token is case sensitive on the wire: "get" is not GET (Router.Match upper-cases, ServeHTTP does not)
+		if rng.Chance(1, 2) {
+			m = strings.ToLower(m)
+		} else {
+			m = m[:1] + strings.ToLower(m[1:])
+		}
 	}
 	return Req{Method: m, Path: path, Gone: rng.Chance(1, 14)}
 }
